@@ -304,8 +304,18 @@ package sev
 
 // C06/C04: every launch digest of the endorsement is computed from the supplied image, for the requested product
 // and for exactly the vCPU count it is listed under.
+// C06 (the document carries a measurement for every requested configuration): with one launch VMSA count requested, a
+// successful result holds the 48-byte measurement for exactly that count - a failed measurement is an error, never a
+// silently shorter table.
+//@ func vmsaCounts
+//@   requires snpRequest != nil
+//@   assigns nothing
+//@   ensures[C06] snpRequest.LaunchVmsas != 0 ==> len(result) == 1 && result[0] == snpRequest.LaunchVmsas
+
 //@ func generateAllPossibleLDs
 //@   requires snpRequest != nil
+//@   ensures[C06] err == nil && snpRequest.LaunchVmsas != 0 ==> has(result0, snpRequest.LaunchVmsas) && len(result0[snpRequest.LaunchVmsas]) == 48
+//@   loop 1 invariant[C06] rangeindex >= 0 && snpRequest.LaunchVmsas != 0 ==> has(result, snpRequest.LaunchVmsas) && len(result[snpRequest.LaunchVmsas]) == 48
 //@   modifies ldN, ldType, ldGpa, ldData, pbsrc, pbok
 //@   atcall LaunchDigest requires[C06,C04] p0 != nil && p0.Product == snpRequest.Product && p0.Vcpus == count && same(p1, uefi)
 //@   loop 1 invariant options != nil && fresh(options) && options.Product == snpRequest.Product && result != nil && fresh(result)
